@@ -505,9 +505,55 @@ class CaseInterp:
         return False
 
     # ---- the walk
-    def run(self):
+    def fork(self, t, why):
+        """A branch inside macro-expanded code (`assert!`, `debug_assert!`, `log::debug!`, ..) on a value outside the fragment: both arms are
+        walked.  An arm that only panics is the failing assertion -- a precondition the contract's cases satisfy -- and is dropped; the
+        remaining arms must agree on the result (a logging arm rejoins the main path)."""
+        import copy
+        if getattr(self, 'forks', 0) >= 3:
+            raise Unknown('branch on a value outside the fragment (%s)' % why)
+        targets = []
+        for _, tgt in t['targets']:
+            if tgt not in targets:
+                targets.append(tgt)
+        if t['otherwise'] is not None and t['otherwise'] not in targets:
+            targets.append(t['otherwise'])
+        results = []
+        for tgt in targets:
+            sub = copy.copy(self)
+            sub.vals = dict(self.vals)
+            sub.forks = getattr(self, 'forks', 0) + 1
+            try:
+                results.append(sub.run(tgt))
+            except Panic:
+                continue
+        if not results:
+            raise Panic()
+        if any(r != results[0] for r in results[1:]):
+            raise Unknown('branch on a value outside the fragment (%s), and its arms disagree' % why)
+        return results[0]
+
+    def only_panics(self, bb):
+        """the block (following gotos and calls that build the message) ends in a call that does not return: the failing arm of an assertion"""
+        for _ in range(6):
+            t = self.b.blocks[bb]['term']
+            if t['k'] == 'call':
+                if t['target'] is None:
+                    return True
+                c = Callee(t['func'])
+                if c.self_base in ('Arguments', 'Argument') or c.name in ('new_display', 'new_debug', 'new_const', 'new_v1', 'from_str'):
+                    bb = t['target']
+                    continue
+                return False
+            if t['k'] == 'goto':
+                bb = t['target']
+                continue
+            return False
+        return False
+
+    def run(self, start=0):
         b = self.b
-        bb = 0
+        bb = start
         for _ in range(400):
             bl = b.blocks[bb]
             for st in bl['stmts']:
@@ -563,6 +609,8 @@ class CaseInterp:
                 try:
                     v = self.operand(t['discr'])
                 except Unknown as e:
+                    if t.get('exp') or any(self.only_panics(tgt) for tgt in [x[1] for x in t['targets']] + [t['otherwise']] if tgt is not None):
+                        return self.fork(t, '%s; %s' % (e, getattr(self, 'last_unknown', '?')))
                     raise Unknown('branch on a value outside the fragment (%s; %s)' % (e, getattr(self, 'last_unknown', '?')))
                 if isinstance(v, bool):
                     v = int(v)
